@@ -75,7 +75,9 @@ def main():
                "loss objects in C07; files and databases larger than a buffer / page cache in C06; a timed `join` as a sync point in C10; other-run "
                "folders sharing rows with the new run in C04; and after round 2: faulted traces in C09, empty other-layout folders in C04, in-place "
                "previous commits in C06, non-float64 real data in C02, reused declaration arrays in C03, NaN losses and crash-and-resume "
-               "(Exception and KeyboardInterrupt flavours) in C05/C11, a parameter-mutating model and a >500-point history in C01. The lesson repeated across them: generators must include the boundary of "
+               "(Exception and KeyboardInterrupt flavours) in C05/C11, a parameter-mutating model and a >500-point history in C01, "
+               "second constructions on the caller's own arrays in C15, integer-typed and reused grid objects in C17, the caller's own array "
+               "(kept and passed twice) in C20, one-sided float32 overflow in C16. The lesson repeated across them: generators must include the boundary of "
                "*representation* (signed zero, exact zero, dtype, array rank, buffer size) and *object reuse* (the same loss / sampler / folder used "
                "twice), not only the boundary of the mathematical domain.\n")
 
